@@ -9,15 +9,16 @@ CONSTANTS DevNums,      \* possible device numbers
           Geoms,        \* possible <<ncols, nrows>> per device
           FirstRows, SepCards, SepCols,
           MaxPasses,    \* how many times PrepareChannels runs on the same object
-          ResetGroups   \* switch, TRUE = as the code is
+          ResetGroups,  \* switch, TRUE = as the code is
+          SkipLastCardCheck \* design variant (FALSE = as the code is): "nothing follows the last card, so it may exceed the card separation" - wrong when the cards are not listed in ascending order
 
 VARIABLES cfg, result, done, passes
 vars == <<cfg, result, done, passes>>
 
-\* active devices in increasing devnum order, each with a geometry
-DevSeqs == UNION {{[i \in 1..Cardinality(S) |-> [devnum |-> (CHOOSE f \in [1..Cardinality(S) -> S] : \A a, b \in 1..Cardinality(S) : a < b => f[a] < f[b])[i],
-                                                  ncols |-> g[i][1], nrows |-> g[i][2]]]
-                   : g \in [1..Cardinality(S) -> Geoms]} : S \in (SUBSET DevNums) \ {{}}}
+\* active devices in the order the client listed them (ActiveCards; not necessarily ascending), each with a geometry
+Perms(S) == {f \in [1..Cardinality(S) -> S] : \A a, b \in 1..Cardinality(S) : a # b => f[a] # f[b]}
+DevSeqs == UNION {{[i \in 1..Cardinality(S) |-> [devnum |-> f[i], ncols |-> g[i][1], nrows |-> g[i][2]]]
+                   : f \in Perms(S), g \in [1..Cardinality(S) -> Geoms]} : S \in (SUBSET DevNums) \ {{}}}
 
 Init == /\ cfg \in [devs : DevSeqs, first : FirstRows, sepcards : SepCards, sepcols : SepCols]
         /\ result = [ok |-> FALSE, chans |-> <<>>, groups |-> <<>>] /\ done = FALSE /\ passes = 0
@@ -26,7 +27,7 @@ Init == /\ cfg \in [devs : DevSeqs, first : FirstRows, sepcards : SepCards, sepc
 Valid(c) ==
   /\ c.sepcards >= 0 /\ c.sepcols >= 0
   /\ (c.sepcols > 0 => \A i \in 1..Len(c.devs) : c.devs[i].nrows <= c.sepcols)
-  /\ (c.sepcards > 0 => \A i \in 1..Len(c.devs) :
+  /\ (c.sepcards > 0 => \A i \in 1..(IF SkipLastCardCheck THEN Len(c.devs) - 1 ELSE Len(c.devs)) :
          (IF c.sepcols > 0 THEN c.sepcols ELSE c.devs[i].nrows) * c.devs[i].ncols <= c.sepcards)
 
 \* the numbering loop: state <<cnum, thisColFirst, chans, groups>> folded over devices and columns
